@@ -289,3 +289,159 @@ def items(verify):
     out.append((CacheReader("overall", None, None, False), []))
     out.append((CacheReader("by_group", None, None, False), [("by_group_returns_overall", verify.replace_expr("self._result_cache['by_group']", "self._result_cache['overall']"))]))
     return out
+
+
+class CIReader(_MFBase):
+    """The bootstrap readers overall_ci / by_group_ci / group_min_ci() / group_max_ci() / difference_ci(method) / ratio_ci(method) (C18: 'shaped like the
+    estimates' needs each reader to hand out the interval list computed for ITS estimate): _check_bootstrap_initialized() is consulted (its ValueError
+    propagates), an undocumented `method` raises ValueError, otherwise the cell [kind] / [kind][method] is returned; the cache is not modified.
+    Every cell of the cache - point estimates and intervals - holds a distinct marker."""
+
+    def __init__(self, kind, method=None):
+        self.kind, self.method = kind, method
+        self.function = "MetricFrame." + kind
+        self.variant = f"[method={method}]" if kind in ("difference_ci", "ratio_ci") else ""
+
+    def params(self, eng, st):
+        self.raw, self.cl = Abstract("disagg"), Abstract("control_levels")
+        cache = {"overall": term("cell", "overall"), "by_group": term("cell", "by_group")}
+        for k in ("group_min", "group_max"):
+            cache[k] = PyDict({e: term("cell", k, e) for e in ERRS})
+        for c in ("difference", "ratio"):
+            cache[c] = PyDict({m: PyDict({e: term("cell", c, m, e) for e in ERRS}) for m in METHODS})
+        for k in ("overall_ci", "by_group_ci", "group_min_ci", "group_max_ci"):
+            cache[k] = term("cell", k)
+        for c in ("difference_ci", "ratio_ci"):
+            cache[c] = PyDict({m: term("cell", c, m) for m in METHODS})
+        st.env.update({"self": Obj("MetricFrame", {"_result_cache": PyDict(cache)})})
+        if self.kind in ("difference_ci", "ratio_ci"):
+            st.env["method"] = self.method if self.method is not None else default_of(eng.fn, "method")
+
+    def on_call(self, eng, st, node, name, recv, args, kwargs):
+        if isinstance(recv, Obj) and recv.cls == "MetricFrame" and name == "_check_bootstrap_initialized" and not args and not kwargs:
+            st.ghost["consulted"] = True
+            self.may_raise(eng, st, ("_check_bootstrap_initialized",))
+            return None
+        return super().on_call(eng, st, node, name, recv, args, kwargs)
+
+    def post(self, eng, st, status, value):
+        flat = CacheReader.flat(self, st.env["self"].fields["_result_cache"])
+        untouched = ("the_cache_is_not_modified", BoolVal(len(flat) == 22 and all(v == ("cell",) + p for p, v in flat.items())))
+        method = self.method if self.method is not None else "between_groups"
+        if self.kind in ("difference_ci", "ratio_ci") and method not in METHODS:
+            return [untouched, ("an_undocumented_method_raises_ValueError", BoolVal(status == "raise" and isinstance(value, Exc) and value.typ == "ValueError"))]
+        not_init = any(str(c) == "raises<_check_bootstrap_initialized>" and val for c, val in st.decisions)
+        if not_init:
+            return [untouched, ("without_bootstrap_results_the_error_of_the_guard_is_raised", BoolVal(status == "raise" and key_of(value) == ("raised", "_check_bootstrap_initialized")))]
+        path = (self.kind, method) if self.kind in ("difference_ci", "ratio_ci") else (self.kind,)
+        return [untouched, ("the_bootstrap_guard_is_consulted", BoolVal(bool(st.ghost.get("consulted")))),
+                ("returns_the_interval_list_of_its_own_estimate", BoolVal(status == "return" and key_of(value) == ("cell",) + path))]
+
+
+def ci_items(verify):
+    out = []
+    for kind in ("overall_ci", "by_group_ci", "group_min_ci", "group_max_ci"):
+        can = [("group_min_ci_hands_out_the_group_max_intervals", verify.replace_expr("self._result_cache['group_min_ci']", "self._result_cache['group_max_ci']"))] if kind == "group_min_ci" else []
+        out.append((CIReader(kind), can))
+    for kind in ("difference_ci", "ratio_ci"):
+        for m in METHODS + ("bogus", None):
+            can = [("ratio_ci_hands_out_the_other_method", verify.replace_expr("self._result_cache['ratio_ci'][method]", "self._result_cache['ratio_ci']['between_groups']"))] if (kind, m) == ("ratio_ci", "to_overall") else []
+            out.append((CIReader(kind, m), can))
+    out.append((PopulateResultsCI(), [("ratio_intervals_from_the_difference_samples", verify.replace_expr("c_t == 'difference_ci'", "True")),
+                                      ("by_group_intervals_extracted_like_overall", verify.replace_const(True, False, 0))]))
+    out.append((GroupCI("min"), [("grouping_over_all_rows_instead_of_per_control_level", verify.replace_expr("self.control_levels", "None"))]))
+    out.append((GroupCI("max"), []))
+    return out
+
+
+class _CIBase(_MFBase):
+    """list comprehensions over the (arbitrarily long) list of bootstrap results / over a quantile list are evaluated ONCE on a generic element and
+    recorded as map(<element term>, <list term>): the obligations then hold for every number of resamples and quantiles."""
+
+    def setup(self, st, extra=None):
+        self.raw = Abstract("disagg", name="generic bootstrap result")          # the generic element of bootstrap_samples
+        self.cl = Abstract("control_levels")
+        self.samples, self.q = term("bootstrap_samples"), term("ci_quantiles")
+        env = {"self": Obj("MetricFrame", {"_result_cache": PyDict()}), "bootstrap_samples": self.samples, "ci_quantiles": self.q}
+        env.update(extra or {})
+        st.env.update(env)
+
+    def on_call(self, eng, st, node, name, recv, args, kwargs):
+        if name == "$listcomp" and isinstance(recv, Abstract) and recv.tag == "term":
+            comp = args[0]
+            g = comp.generators[0]
+            if g.ifs or not isinstance(g.target, ast.Name):
+                return NotImplemented
+            elem = self.raw if recv is self.samples else term("element_of", recv.key)
+            saved = st.env.get(g.target.id, NotImplemented)
+            st.env[g.target.id] = elem
+            v = eng.ev(comp.elt, st)
+            if saved is NotImplemented:
+                del st.env[g.target.id]
+            else:
+                st.env[g.target.id] = saved
+            return term("map", key_of(v), recv.key)
+        if name.split(".")[-1] == "calculate_pandas_quantiles":
+            a = dict(zip(("quantiles", "bootstrap_samples"), args))
+            a.update(kwargs)
+            if set(a) != {"quantiles", "bootstrap_samples"}:
+                return NotImplemented
+            return term("quantiles", key_of(a["quantiles"]), key_of(a["bootstrap_samples"]))
+        if isinstance(recv, Obj) and recv.cls == "MetricFrame" and name == "_group_ci":
+            a = dict(zip(("bootstrap_samples", "ci_quantiles", "grouping_function"), args))
+            a.update(kwargs)
+            if set(a) != {"bootstrap_samples", "ci_quantiles", "grouping_function"}:
+                return NotImplemented
+            return term("group_ci", key_of(a["bootstrap_samples"]), key_of(a["ci_quantiles"]), a["grouping_function"])
+        return super().on_call(eng, st, node, name, recv, args, kwargs)
+
+    def may_raise(self, eng, st, key):
+        return None          # no handler in the bootstrap paths: an exception of a callee simply propagates (errors='raise' is the documented behaviour)
+
+    @staticmethod
+    def intervals(of, ncl):
+        """[extract(x, ncl) for x in quantiles(ci_quantiles, of)]"""
+        qs = ("quantiles", ("ci_quantiles",), of)
+        return ("map", ("extract", ("element_of", qs), ncl), qs)
+
+
+class PopulateResultsCI(_CIBase):
+    function = "MetricFrame._populate_results_ci"
+
+    def params(self, eng, st):
+        self.setup(st)
+
+    def post(self, eng, st, status, value):
+        if status != "return":
+            return [("returns", BoolVal(False))]
+        cache = st.env["self"].fields["_result_cache"]
+        S = ("bootstrap_samples",)
+        want = {"overall_ci": self.intervals(("map", ("raw", "overall"), S), False), "by_group_ci": self.intervals(("map", ("raw", "by_group"), S), True),
+                "group_min_ci": ("group_ci", S, ("ci_quantiles",), "min"), "group_max_ci": ("group_ci", S, ("ci_quantiles",), "max")}
+        out = [("cache_gains_exactly_the_six_interval_entries", BoolVal(set(cache.d.keys()) == set(want) | {"difference_ci", "ratio_ci"}))]
+        for k, w in want.items():
+            out.append((f"{k}_is_the_interval_list_of_its_own_estimate_over_all_resamples", BoolVal(key_of(cache.d.get(k)) == w)))
+        for c in ("difference", "ratio"):
+            sub = cache.d.get(c + "_ci")
+            ok = isinstance(sub, PyDict) and set(sub.d.keys()) == set(METHODS)
+            out.append((f"{c}_ci_has_one_cell_per_method", BoolVal(ok)))
+            for m in METHODS:
+                w = self.intervals(("map", ("none_to_nan", ("element_of", ("map", (c, "control_levels", m, "raise"), S))), ("map", (c, "control_levels", m, "raise"), S)), False)
+                out.append((f"{c}_ci[{m}]_is_the_interval_list_of_the_{c}_for_that_method_over_the_control_levels_of_every_resample", BoolVal(bool(ok and key_of(sub.d[m]) == w))))
+        return out
+
+
+class GroupCI(_CIBase):
+    function = "MetricFrame._group_ci"
+
+    def __init__(self, fn):
+        self.fn = fn
+        self.variant = f"[{fn}]"
+
+    def params(self, eng, st):
+        self.setup(st, {"grouping_function": self.fn})
+
+    def post(self, eng, st, status, value):
+        S = ("bootstrap_samples",)
+        w = self.intervals(("map", ("apply_grouping", self.fn, "control_levels", "raise"), S), False)
+        return [("returns_the_interval_list_of_the_given_grouping_over_the_control_levels_of_every_resample", BoolVal(status == "return" and key_of(value) == w))]
